@@ -235,6 +235,7 @@ inductive ReaderError where
   | notEnough         -- "not enough routing matrices specified for fleet profiles defined"
   | invalidIndex      -- "invalid matrix index: {i}"
   | profileCount      -- "amount of fleet profiles does not match matrix profiles"
+  | unknownName       -- only after fixes/S28.patch: "matrix profile '..' is not defined in fleet profiles"
   | build (e : BuildError)
 deriving Repr, DecidableEq
 
@@ -265,10 +266,19 @@ def toMatrixDataAll (profiles : List String) : Nat → List ApiMatrix → Option
 
 def distinctCount (xs : List Nat) : Nat := xs.eraseDups.length
 
-/-- `create_transport_costs` (without a custom location: `create_matrix_transport_cost`) -/
-def createTransportCosts (profiles : List String) (ms : List ApiMatrix) : Except ReaderError Provider :=
+/-- every named matrix refers to a fleet profile (the hypothesis S28 is about) -/
+def namesKnown (profiles : List String) (ms : List ApiMatrix) : Bool :=
+  ms.all (fun m => match m.profile with
+    | none => true
+    | some n => profiles.contains n)
+
+/-- `create_transport_costs` (without a custom location: `create_matrix_transport_cost`).
+    `strict = false` is the code as it stands: a matrix whose name is not a fleet profile is mapped by its list
+    position (S28). `strict = true` is the code after `fixes/S28.patch`: such a name is an error. -/
+def createTransportCosts (strict : Bool) (profiles : List String) (ms : List ApiMatrix) : Except ReaderError Provider :=
   if !ms.all (fun m => m.profile.isSome) && !ms.all (fun m => m.profile.isNone) then .error .mixedNames
   else if ms.any (fun m => m.profile.isNone) && ms.any (fun m => m.timestamp.isSome) then .error .timedUnnamed
+  else if strict && !namesKnown profiles ms then .error .unknownName
   else
     let np := (profileIndexMap profiles []).length
     if np > ms.length then .error .notEnough
@@ -281,6 +291,9 @@ def createTransportCosts (profiles : List String) (ms : List ApiMatrix) : Except
           match build data with
           | .error e => .error (.build e)
           | .ok p => .ok p
+
+/-- which variant of the reader `/repo` currently has (used by the driver only; the theorems cover both) -/
+def readerStrict : Bool := false
 
 /-- a vehicle type as far as routing is concerned: `profile.matrix`, `profile.scale` -/
 structure ApiVehicle where
@@ -386,14 +399,15 @@ def specAwareDist (ms : List MatrixData) (n frm to : Nat) (t : Rat) : Option Rat
     durations times the scale, distances unscaled -/
 def specDuration (ms : List MatrixData) (n : Nat) (p : Profile) (frm to : Nat) (t : Rat) : Option Rat :=
   match supplied ms p.index with
-  | [m] => if m.timestamp.isNone then (entryDur m n frm to).map (fun v => (v : Rat) * p.scale)
-           else none
-  | g => (specAwareDur g n frm to t).map (· * p.scale)
+  | [] => none
+  | [m] => if m.timestamp.isNone then (entryDur m n frm to).map (fun v => (v : Rat) * p.scale) else none
+  | g => if g.all (fun m => m.timestamp.isSome) then (specAwareDur g n frm to t).map (· * p.scale) else none
 
 def specDistance (ms : List MatrixData) (n : Nat) (p : Profile) (frm to : Nat) (t : Rat) : Option Rat :=
   match supplied ms p.index with
+  | [] => none
   | [m] => if m.timestamp.isNone then (entryDist m n frm to).map (fun v => (v : Rat)) else none
-  | g => specAwareDist g n frm to t
+  | g => if g.all (fun m => m.timestamp.isSome) then specAwareDist g n frm to t else none
 
 /-- `xs` has no two equal elements -/
 def allDistinct : List Nat → Bool
@@ -438,11 +452,5 @@ def specReaderDuration (profiles : List String) (ms : List ApiMatrix) (n : Nat) 
 def specReaderDistance (profiles : List String) (ms : List ApiMatrix) (n : Nat) (v : ApiVehicle)
     (frm to : Nat) (t : Rat) : Option Rat :=
   specDistance (namedFor profiles ms v.matrix) n ⟨0, v.scale.getD 1⟩ frm to t
-
-/-- every named matrix refers to a fleet profile (the hypothesis S28 is about) -/
-def namesKnown (profiles : List String) (ms : List ApiMatrix) : Bool :=
-  ms.all (fun m => match m.profile with
-    | none => true
-    | some n => profiles.contains n)
 
 end C16
